@@ -552,3 +552,94 @@ def lemma_stream():
                     status='discharged' if r == z3.unsat else ('failed' if r == z3.sat else 'unknown'), solver='z3py-%s' % z3.get_version_string(),
                     secs=time.time() - t0, model=None, info=None, line=None))
     return out
+
+
+# ------------------------------------------------------------------------------------------------ read timeout (safety form)
+@unit(name='tcp.connectionTimeout', relpath=TMOD, qual=['TcpConnection.__processConnectionTimeout'], props=['C14', 'C13'],
+      doc='a connection from which nothing was read for longer than the timeout is disconnected by the check, otherwise left alone',
+      canaries=[('never-expires', lambda mod: mutate_function(mod, 'TcpConnection.__processConnectionTimeout', lambda fn: replace_compare(fn, lambda n: True, ast.Gt, ast.Lt, 0)),
+                 ['timeout.disconnects-iff-silent-too-long'])])
+def tcp_connection_timeout(ctx):
+    conn, rbuf, wbuf, st, sock = mk_conn(ctx)
+    now = FreshReal('now')
+    ext = {'monotonicTime': lambda I, a, k: now, 'monotonic.monotonic': lambda I, a, k: now}
+    mod = source.load(TMOD)
+    fn, ci = mod.find('TcpConnection.__processConnectionTimeout')
+    e2 = dict(EXT)
+    e2.update(ext)
+    I = Interp(ctx, registry=REG, externals=e2, hooks={'call:cb': cb_hook})
+    I.call_funcdef(fn, mod, 'TcpConnection', conn, [], {}, None, 'TcpConnection.__processConnectionTimeout')
+    disc = ctx.glist('disconnects')
+    c = ctx.cell(conn)
+    ctx.prove(len(disc) <= 1, 'C14:timeout.at-most-one-disconnect')
+    lrt = PRE_LAST['v']
+    ctx.prove(Iff(len(disc) == 1, now - lrt > c.fields[TC('timeout')]), 'C14+C13:timeout.disconnects-iff-silent-too-long')
+
+
+PRE_LAST = {}
+_mk_conn_orig = mk_conn
+
+
+def mk_conn(ctx, state=None):      # noqa: F811  (records the pre-state lastReadTime for the timeout units)
+    r = _mk_conn_orig(ctx, state)
+    PRE_LAST['v'] = ctx.cell(r[0]).fields[TC('lastReadTime')]
+    return r
+
+
+def timeout_summary(I, selfv, args, kw):
+    """contract of __processConnectionTimeout (unit tcp.connectionTimeout)"""
+    ctx = I.ctx
+    c = ctx.cell(selfv)
+    now = clock_ext(I, [], {})
+    ctx.ghost['events'] = ctx.glist('events') + ['timeout-check']
+    expired = now - c.fields[TC('lastReadTime')] > c.fields[TC('timeout')]
+    ctx.ghost['expired'] = ctx.glist('expired') + [expired]
+    if ctx.decide(expired, 'read-timeout-expired'):
+        disconnect_summary(I, selfv, [], {})
+    return None
+
+
+def process_send_summary(I, selfv, args, kw):
+    """contract of __processSend (unit tcp.processSend): hands the write buffer to the socket once; True iff progress"""
+    ctx = I.ctx
+    ctx.ghost['events'] = ctx.glist('events') + ['socket-send']
+    return FreshBool('sendProgress')
+
+
+@unit(name='tcp.trySendBuffer', relpath=TMOD, qual=['TcpConnection.__trySendBuffer'], props=['C14', 'C13'],
+      doc='every attempt to flush first evaluates the read timeout, so a peer that went silent is noticed on the next send even though a '
+          'silent socket raises no poll event; nothing is handed to the socket of a connection found dead',
+      canaries=[('no-timeout-check', lambda mod: mutate_function(mod, 'TcpConnection.__trySendBuffer', _mut_drop_timeout_call), ['trySend.timeout-evaluated-before-sending'])])
+def tcp_try_send_buffer(ctx):
+    from pyvc.loops import LoopSpec, loop_table
+    conn, rbuf, wbuf, st, sock = mk_conn(ctx, CONNECTED)
+    mod = source.load(TMOD)
+    fn, ci = mod.find('TcpConnection.__trySendBuffer')
+    reg = dict(REG)
+    reg['TcpConnection.__processConnectionTimeout'] = timeout_summary
+    reg['TcpConnection.__processSend'] = process_send_summary
+    loops = {}
+    if any(isinstance(n, ast.While) for n in ast.walk(fn)):
+        spec = LoopSpec('C13:trySend.flush-loop', lambda I, fr, it: [], havoc=lambda I, fr: None)
+        loops = {'TcpConnection.__trySendBuffer': loop_table(mod, 'TcpConnection.__trySendBuffer', {0: spec})}
+    I = Interp(ctx, registry=reg, externals=EXT, loop_invariants=loops, hooks={'call:cb': cb_hook})
+    try:
+        I.call_funcdef(fn, mod, 'TcpConnection', conn, [], {}, None, 'TcpConnection.__trySendBuffer')
+        outcome = 'ok'
+    except PyExc as e:
+        outcome = e.typ
+    ctx.prove(outcome == 'ok', 'C13+C14:trySend.no-exception', info=outcome)
+    ev = ctx.glist('events')
+    ctx.prove(len(ev) >= 1 and ev[0] == 'timeout-check', 'C14:trySend.timeout-evaluated-before-sending', info=repr(ev[:3]))
+    exp = ctx.glist('expired')
+    if exp and len(ev) > 1:
+        ctx.prove(Not(exp[0]), 'C14+C13:trySend.nothing-sent-on-a-dead-connection')
+
+
+def _mut_drop_timeout_call(fn):
+    cnt = 0
+    for s in list(fn.body):
+        if isinstance(s, ast.Expr) and isinstance(s.value, ast.Call) and isinstance(s.value.func, ast.Attribute) and s.value.func.attr == '__processConnectionTimeout':
+            fn.body.remove(s)
+            cnt += 1
+    return cnt
